@@ -231,7 +231,7 @@ func TestVF_C10(t *testing.T) {
 		"evaluation = one store answer compared; distinct/non-trivial = (fixture, request) whose reference answer has at least one series")
 	nFix := r.N(6, 36)
 	nReq := r.N(32, 70)
-	r.Require(int64(nFix*nReq*4), nFix*nReq/5)
+	r.Require(int64(nFix*nReq*4), nFix*nReq/8)
 	r.Assume("request ranges have mint <= maxt; blocks have no tombstones; block meta min/max time bound the samples (as the compactor writes them)")
 	r.Assume("series that become label-identical after external labels override stored ones are one series whose chunks are the union (identical chunks once), as the store's documented merge does")
 	base := t.TempDir()
